@@ -818,9 +818,60 @@ class _DictItems:
         self.d = d
 
 
+def _d_update_symbolic(eng, recv, args, kwargs):
+    """d.update(other) on a symbolic scalar-valued dict: afterwards a key is present iff it was present or is a key of `other`,
+    and the keys of `other` carry other's values (CPython: PyDict_Merge with override)"""
+    if kwargs or recv.vkind == "intlist":
+        raise Unsupported("update on a symbolic dict with keywords / list values")
+    eng.assumptions.add("dict-model: d.update(other) keeps d's keys, adds other's keys, other's values win (cross-checked: tools/xcheck_c04_models.py)")
+    for a in args:
+        if isinstance(a, PDict) and a.items is None:
+            if a.vkind == "intlist":
+                raise Unsupported("update of a symbolic dict by a list-valued dict")
+            k = z3.Int(fresh_name("uk"))
+            in_a = z3.Select(a.dom, k)
+            recv.dom = z3.Lambda([k], z3.Or(z3.Select(recv.dom, k), in_a))
+            recv.val = z3.Lambda([k], z3.If(in_a, to_z3(Sym(z3.Select(a.val, k), a.vkind), recv.vkind), z3.Select(recv.val, k)))
+            continue
+        pairs = list(a.items.items()) if isinstance(a, PDict) else (list(a.items()) if isinstance(a, dict) else [tuple(iterate_concrete(eng, kv)) for kv in iterate_concrete(eng, a)])
+        for key, val in pairs:
+            kz = to_z3(key, "int")
+            recv.dom = z3.Store(recv.dom, kz, z3.BoolVal(True))
+            recv.val = z3.Store(recv.val, kz, to_z3(val, recv.vkind))
+    return None
+
+
+def _b_dict_fromkeys(eng, args, kwargs):
+    """dict.fromkeys(iterable, value=None): every element of the iterable becomes a key with the ONE given value"""
+    if kwargs or not 1 <= len(args) <= 2:
+        raise Unsupported("dict.fromkeys arguments")
+    seq, value = args[0], (args[1] if len(args) > 1 else None)
+    try:
+        keys = iterate_concrete(eng, seq)
+    except Unsupported:
+        keys = None
+    if keys is not None:
+        if any(isinstance(k, Sym) for k in keys):
+            raise Unsupported("dict.fromkeys with symbolic keys in a concrete sequence")
+        return PDict({eng.hashable(k): value for k in keys})
+    from . import npmodels
+
+    eng.assumptions.add("dict-model: dict.fromkeys(iterable, v) has exactly the iterable's elements as keys, each with the one value v (cross-checked: tools/xcheck_c04_models.py)")
+    length, getter = as_sequence(eng, seq)
+    if isinstance(seq, Iter):
+        seq.consumed = True
+    i = z3.Int(fresh_name("fk"))
+    nz = length.z if isinstance(length, Sym) else zint(length)
+    vv = Sym(z3.IntVal(0), "oref") if value is None else value
+    return npmodels._dict_from_pairs(eng, i, nz, getter(Sym(i, "int")), vv)
+
+
 def _d_update(eng, recv, args, kwargs):
+    check_frame(eng, recv)
     if recv.items is None:
-        raise Unsupported("update on symbolic dict")
+        return _d_update_symbolic(eng, recv, args, kwargs)
+    if any(isinstance(a, PDict) and a.items is None for a in args):
+        raise Unsupported("update of a concrete dict by a symbolic one (add a `types` hint)")
     for a in args:
         src = a.items if isinstance(a, PDict) else a
         if isinstance(src, dict):
@@ -1377,6 +1428,7 @@ BUILTIN_MODELS = {
     itertools.combinations: _combinatoric(itertools.combinations), itertools.permutations: _combinatoric(itertools.permutations),
     itertools.product: _combinatoric(itertools.product), itertools.pairwise: _combinatoric(itertools.pairwise),
     itertools.combinations_with_replacement: _combinatoric(itertools.combinations_with_replacement),
+    dict.fromkeys: _b_dict_fromkeys,
 }
 try:
     import typing
